@@ -36,6 +36,14 @@ Theorem C15_lock_order : lock_order_ok = true.
 Proof. exact lock_order_holds. Qed.
 Print Assumptions C15_lock_order.
 
+(** the two vector operations the model mirrors are the ones the current source uses (read by tools/consts.py on every run):
+    add_rule pushes and re-sorts with the stable sort_by_key(Reverse(salience)) and rebuilds the index from scratch
+    ([stable_sort] / [rebuild]); remove_rule is Vec::remove(position) followed by the same rebuild ([remove_nth]) *)
+From RRE Require Import Generated.Consts.
+Theorem C15_source_vector_operations : kb_add_is_push_then_stable_sort && kb_remove_is_vec_remove = true.
+Proof. reflexivity. Qed.
+Print Assumptions C15_source_vector_operations.
+
 (** THE SEQUENTIAL REFINEMENT, for every operation sequence of any length over any names and saliences: after every
     operation the model of knowledge_base.rs (sorted vector + name index rebuilt on every change) shows exactly what the
     abstract specification shows - the operation's result, the listing, the lookup of every name, the version.
